@@ -246,6 +246,25 @@ def table_size(m):
     return len(reach), len({a for s in reach for a in m["actions"][s]})
 
 
+def f32(x):
+    """the exact rational of x rounded to IEEE single precision"""
+    import struct
+    return F(struct.unpack("f", struct.pack("f", float(x)))[0])
+
+
+def arg_types(rng, rmax, prefer32=False):
+    """numeric types of the constructor ARGUMENTS (equal in value to the float64 numbers): rmax as Python float /
+    int / numpy float64 / float32 / int64 (only where the value is exactly representable, so that the code's
+    assert rmax == max reward passes), threshold and episode count as int or numpy int64"""
+    rmax = F(rmax)
+    opts = ["float", "float64"]
+    if rmax.denominator == 1:
+        opts += ["int", "int64"]
+    if f32(rmax) == rmax:
+        opts += ["float32"] * (6 if prefer32 else 2)
+    return {"rmax_type": rng.choice(opts), "int_args_type": rng.choice(["int", "int", "int64"])}
+
+
 def view_size(m, pres):
     """(n_states, n_actions) of the learner's tables for MDP m presented as pres"""
     ex = pres.get("explicit_lists")
@@ -297,20 +316,28 @@ def gen_case(rng, tier):
                 "family": "slow-decay", "mirror": False, "variants": []}
         case.update(presentation(rng, m))
         case["rmax"] = str(rmax_of(m, case["explicit_lists"]))
+        case.update(arg_types(rng, case["rmax"]))
         return case
-    if rng.random() < .09:
+    if rng.random() < .13:
         # non-dyadic family: judged on the exact rationals of the doubles msdm was given; the learner's float
         # bookkeeping (tallies, optimistic value) is compared BIT-exactly with the same float operations redone
         # in Python, the other clauses by the Coq certificate; no exact mirror (the rationals would explode)
         gamma = rng.choice(["9/10", "19/20", "1/3", "2/3", "7/10"])
         m = gen_main_mdp(rng, tier, gamma)
         make_nondyadic(rng, m)
-        case = {"mdp": m, "m": rng.randint(1, 5), "episodes": rng.randint(1, 30), "seed": draw_seed(rng),
+        variants = []
+        if rng.random() < .6:
+            # rewards that are single-precision numbers (a float32 reward table): rmax can then be handed over as a
+            # numpy float32 scalar equal in value to the float64 maximum, while rmax/(1-gamma) is NOT a float32 number
+            m["reward"] = {k: str(f32(F(v))) for k, v in m["reward"].items()}
+            variants.append("float32-valued-rewards")
+        case = {"mdp": m, "m": rng.randint(1, 5), "episodes": rng.randint(0, 30), "seed": draw_seed(rng),
                 "tol": rng.choice(["1/100000", "1/100000", "1/1000"]), "family": "non-dyadic", "mirror": False,
-                "float_numbers": True, "variants": []}
+                "float_numbers": True, "variants": variants}
         case.update(presentation(rng, m))
         case["number_type"] = "float"
         case["rmax"] = str(rmax_of(m, case["explicit_lists"]))
+        case.update(arg_types(rng, case["rmax"], prefer32=True))
         return case
     gamma = rng.choice(GAMMAS * 6 + ["0"])            # discount 0 exactly in ~5%
     m = gen_main_mdp(rng, tier, gamma, keep_trivial=rng.random() < .08, nonpos=rng.random() < .06)
@@ -326,6 +353,7 @@ def gen_case(rng, tier):
             "rerun_fresh_mdp": rng.random() < .5}
     case.update(presentation(rng, m))
     case["rmax"] = str(rmax_of(m, case["explicit_lists"]))
+    case.update(arg_types(rng, case["rmax"]))
     if rng.random() < .2:
         # object reuse: the SAME RMAX object is trained on this MDP and then again, either on the very same
         # MDP object or on a second MDP with a different discount rate (and its own rewards / rmax); each
@@ -355,6 +383,7 @@ def gen_case(rng, tier):
             then.update({k: case[k] for k in ("action_labels", "action_perm", "state_labels", "actions_container",
                                               "explicit_lists", "ints_as_int")})
         then["rmax"] = str(rmax_of(then["mdp"], then["explicit_lists"]))
+        then.update(arg_types(rng, then["rmax"]))
         then["first_policy_queried"] = late
         case["then"] = then
     return case
@@ -560,6 +589,8 @@ def run(ctx):
                 "tiny_branch_carrying_rmax": 0, "tiny_branch_only_route_state_in_state_list": 0,
                 "large_magnitude_relative_near_tie": 0, "large_magnitude_tolerance_below_1e-5_relative": 0,
                 "empirical_model_non_dyadic_m3_or_m5_known": 0,
+                "rmax_passed_as_numpy_float32": 0, "rmax_float32_and_optimistic_value_not_a_float32_number": 0,
+                "rmax_passed_as_int_or_numpy_int64_or_float64": 0, "threshold_and_episodes_as_numpy_int64": 0,
                 "reused_same_mdp_object": 0, "state_list_order_differs_from_id_order": 0,
                 "explicit_lists": 0, "explicit_list_with_unreachable_state": 0, "tuple_labels": 0, "falsy_labels": 0,
                 "seed_0": 0, "seed_None": 0, "episodes_0": 0, "gamma_0": 0, "rmax_0": 0, "ints_passed_as_int": 0,
@@ -659,6 +690,10 @@ def run(ctx):
                     t += float(F(pp))
                 return t
             counters["non_dyadic_float_row_sum_not_1"] += int(any(plain_sum(row) != 1.0 for row in view["mdp"]["trans"].values()))
+        counters["rmax_passed_as_numpy_float32"] += int(view.get("rmax_type") == "float32")
+        counters["rmax_float32_and_optimistic_value_not_a_float32_number"] += int(view.get("rmax_type") == "float32" and f32(nb["q0x"]) != nb["q0x"])
+        counters["rmax_passed_as_int_or_numpy_int64_or_float64"] += int(view.get("rmax_type") in ("int", "int64", "float64"))
+        counters["threshold_and_episodes_as_numpy_int64"] += int(view.get("int_args_type") == "int64")
         counters["one_state"] += int(nS == 1)
         counters["one_action"] += int(nA == 1)
         counters["n_states_equals_n_actions"] += int(nS == nA)
@@ -757,6 +792,12 @@ def run(ctx):
                 else:
                     detail["correspondence"] = "model/RMax.v:c17_check (theorems props/C17.v) rejects the implementation's output"
                     ctx.violation(pre + "certificate-rejects:%s" % "+".join(failed), detail, found=False)
+            elif view.get("float_numbers") and oracle(view, res, info[u]["slack"]):
+                # non-dyadic family: the exact-equality clauses are not judged in Coq, the oracle (bit-exact
+                # against the float64 optimistic value) is their judge
+                rejected.add(u)
+                why = oracle(view, res, info[u]["slack"])
+                ctx.violation(pre + why["clause"], {"case": case, "training": tag, "failing_clause": why, "impl": res}, found=True)
             else:
                 why = oracle(view, res, info[u]["slack"])
                 if why:   # the independent oracle and the proved checker must agree
@@ -784,7 +825,8 @@ def run(ctx):
         "distinct_nontrivial": len(distinct),
         "rule": "four families.  NON-DYADIC (about 8%%): a MAIN-style MDP with probabilities in thirds/tenths/sevenths, rewards in tenths/thirds/sevenths, gamma in {9/10,19/20,1/3,2/3,7/10}; "
                 "msdm gets the nearest doubles, the Coq certificate the exact rationals of those doubles (clauses valid/upper/bellman/policy), the learner's float tallies and optimistic entries are compared "
-                "bit-exactly with the same float operations redone in Python; no mirror.  MAIN (about 84%%): proper MDPs from harness/gen_mdp.py (proper=True, uniform_actions=True: 1..%d states, 1..3 actions available in every state, "
+                "bit-exactly with the same float operations redone in Python; no mirror; in 60%% the rewards are single-precision numbers so that rmax can be passed as a numpy float32 scalar while rmax/(1-gamma) is not one.  "
+                "ARGUMENT TYPES (all families): rmax as float / int / numpy float64 / float32 / int64 where equal in value, threshold and episode count as int / numpy int64.  MAIN (about 84%%): proper MDPs from harness/gen_mdp.py (proper=True, uniform_actions=True: 1..%d states, 1..3 actions available in every state, "
                 "k/8 probabilities, zero entries, duplicate rows, explicit absorbing goals possibly with ignored self-loop rewards, "
                 "multi-state initial distributions, rewards in quarters), gamma in {1/2,3/4,7/8} or exactly 0 (5%%), threshold m in 1..5, episodes 1..30 or 0 (3%%), "
                 "seed random / 0 (5%%) / None (3%%), tolerance in {1e-5 (x6), 1e-3, 1e-1, 1e-9}, rmax = max of the reward matrix (the code asserts it; 0 for the 6%% non-positive-reward MDPs); "
